@@ -37,6 +37,22 @@ type iface struct {
 
 type structure []value
 
+// byteBuf is the result of make([]byte, n) with a symbolic n that is the length of a blob or of
+// symbolic bytes: a buffer waiting for the whole-slice copy that fills it (the Go idiom
+// dst := make([]byte, len(src)); copy(dst, src)). Once filled it stands for its content.
+type byteBuf struct {
+	n       *smt.Term
+	content value // nil until copied into; then *blob or symBytes
+}
+
+// norm resolves a filled byteBuf to its content.
+func norm(v value) value {
+	if bb, ok := v.(*byteBuf); ok && bb != nil && bb.content != nil {
+		return bb.content
+	}
+	return v
+}
+
 // symBytes is an immutable []byte whose content is a symbolic string.
 type symBytes struct{ t *smt.Term }
 
@@ -363,4 +379,3 @@ func (it *stringIter) next() tuple {
 	it.i += n
 	return okv
 }
-
